@@ -92,6 +92,7 @@ def generate(con, index=None, live=None, canary=False):
         return rep
     rep.info = info
     cases = con.cases or [None]
+    unsupported = []
     try:
         for case in cases:
             ex = Explorer(con.key + (f"[{case[0]}]" if case else ""), max_paths=con.max_paths)
@@ -106,6 +107,10 @@ def generate(con, index=None, live=None, canary=False):
                         run.oblige(f"{con.key}:canary", False, kind="canary")
                 except PathEnd:
                     pass
+                except Unsupported as e:
+                    # only THIS path left the supported subset: the obligations of the other paths are still generated and
+                    # decided (a refutation on a fully supported path stands); the function as a whole stays undecided
+                    unsupported.append(str(e))
                 rep.trusted |= it.trusted
             for ob in ex.obligations:
                 if case:
@@ -120,6 +125,9 @@ def generate(con, index=None, live=None, canary=False):
     except Exception as e:  # noqa  -- an engine defect on unforeseen syntax must degrade to "undecided", never to an alarm
         rep.status, rep.reason = "undecided", f"engine failure {type(e).__name__}: {e} @ {traceback.format_exc().splitlines()[-3].strip()[:120]}"
         rep.obligations = [ob for ob in rep.obligations]
+    if unsupported and rep.status == "ok":
+        rep.status = "undecided"
+        rep.reason = f"Unsupported on {len(unsupported)} of {rep.paths} paths: {unsupported[0]}"
     rep.gen_time = time.time() - t0
     return rep
 
